@@ -159,7 +159,8 @@ def busy(world):
         t = s.tables()
         if t['rcv'] or t['snd'] or t.get('mpg'):
             return True
-    return any(tag == 'rx' for (_t, _s, _f, tag) in world.sim.heap)
+    # (frames on their way, and application operations still to come - e.g. deferred while an application call was parked)
+    return any(tag in ('rx', 'op') for (_t, _s, _f, tag) in world.sim.heap)
 
 
 def settle(world, cap_s, step_s=0.25, extra_s=0.05):
